@@ -19,6 +19,17 @@ class Sym:
         return f'Sym<{self.kind}:{self.t}>'
 
 
+class SChar(Sym):
+    """s[i] of a symbolic string: a one-character string that remembers where it came from, so that character
+    predicates become uninterpreted functions of (string, position) — no string theory in index-level proofs."""
+    __slots__ = ('src', 'idx')
+
+    def __init__(self, t, src, idx):
+        Sym.__init__(self, STR, t)
+        self.src = src
+        self.idx = idx
+
+
 class Digits:
     """String piece: decimal representation of n >= 0, zero-padded to at least `width` (only [0-9], non-empty)."""
     __slots__ = ('n', 'width', 't')
